@@ -25,7 +25,7 @@ def run_one(req):
     from sx import core as C
     mod = importlib.import_module(req['module'])
     fn = getattr(mod, req['harness'])
-    ctx = ConcCtx(req.get('inputs', {}))
+    ctx = ConcCtx(req.get('inputs', {}), req.get('fill'))
     out = dict(failures=[], exception=None, observations=[], labels=[])
     try:
         fn(ctx, **req.get('params', {}))
@@ -49,6 +49,8 @@ def run_one(req):
     out['failures'] = ctx.failures
     out['observations'] = ctx.observations
     out['labels'] = ctx.req_labels
+    if req.get('fill') is not None:
+        out['used_inputs'] = {k: hex(v) for k, v in ctx.used.items()}
     return out
 
 
